@@ -127,7 +127,7 @@ def main(ctx):
         jobs.append(("mergeP", (inp, rng.choice([0, 1, 2, 5, 10]), rng.choice([0, 0, 3, 7, 16])), 0))
     # several register banks in one input, merged ranges longer than the default transfer limits (no limit given: 1968 for
     # coils / discrete inputs, 123 for registers -- per emitted range, whatever came before it)
-    for k in range(300 if ctx.quick else 5000):
+    for k in range(60 if ctx.quick else 1500):
         inp = []
         for bank_base in rng.sample([1, 10001, 30001, 40001, 100001, 400001], rng.randint(1, 3)):
             a = bank_base + rng.choice([0, 5, 100])
